@@ -12,83 +12,152 @@
 From ZV Require Import Migrate.Consts Migrate.Model Migrate.Proofs.
 Open Scope N_scope.
 
-(* (0) what Inv says, clause by clause *)
-Theorem C18_inv_clauses : forall replica i, Inv replica i ->
+(* Inv q replica i: well-formed (RaftNodes duplicate-free, RaftIDs a map, injective, <= MaxRaftID, Removings a map),
+   at most one replica marked removing, and - when q = true - the non-removing replicas are a strict majority of
+   [replica]. q = false is the part that survives ANY change of the replication factor
+   (ChangeNamespaceMetaParam); q = true is the full invariant, which holds as long as the factor is not raised
+   (lowering_only).  Each attempt in the log of [run] is tagged with the factor in effect when it was made. *)
+
+(* (0) what Inv true says, clause by clause *)
+Theorem C18_inv_clauses : forall replica i, Inv true replica i ->
   len (removings i) <= 1 /\                                   (* at most one replica marked for removal *)
   replica / 2 < len (isr i) /\                                (* remaining replicas: strict majority of the replication factor *)
   NoDup (raft_nodes i) /\                                     (* all on distinct nodes *)
   NoDup (map snd (raft_ids i)) /\                             (* raft ids (voters and learners) injective *)
   (forall n id, In (n, id) (raft_ids i) -> id <= max_id i).   (* every id <= MaxRaftID *)
 Proof.
-  intros replica i [Hw [Hl Hq]]. repeat split; try assumption;
+  intros replica i [Hw [Hl Hq]]. repeat split; try assumption; try (apply Hq; reflexivity);
     try apply (wf_nodes_nodup _ Hw); try apply (wf_ids_inj _ Hw); apply (wf_ids_max _ Hw).
 Qed.
 Print Assumptions C18_inv_clauses.
 
-(* (1) for every replication factor, every valid start layout and every event sequence: every value passed
-       to the register (successful or not) and the final stored value satisfy Inv *)
-Theorem C18_inv_on_every_write : forall replica info auto evs,
-  Inv replica info ->
-  Forall (fun a => Inv replica (a_before a) /\ Inv replica (a_value a)) (snd (run (init_state replica info auto) evs)) /\
-  Inv replica (r_info (s_reg (fst (run (init_state replica info auto) evs)))).
+(* (1) for every replication factor, every valid start layout and every event sequence (for q = true: in which
+       ChangeNamespaceMetaParam never raises the factor): every value passed to the register (successful or not)
+       satisfies Inv for the factor in effect, was derived from a value that did, and the final stored value
+       satisfies Inv for the final factor *)
+Theorem C18_inv_on_every_write : forall q replica info auto evs,
+  Inv q replica info ->
+  (q = true -> lowering_only (init_state replica info auto) evs) ->
+  Forall (fun ra => Inv q (fst ra) (a_before (snd ra)) /\ Inv q (fst ra) (a_value (snd ra)))
+         (snd (run (init_state replica info auto) evs)) /\
+  Inv q (s_replica (fst (run (init_state replica info auto) evs)))
+        (r_info (s_reg (fst (run (init_state replica info auto) evs)))).
 Proof.
-  intros replica info auto evs Hi.
-  assert (H0 : Inv (s_replica (init_state replica info auto)) (r_info (s_reg (init_state replica info auto))))
-    by (simpl; apply Inv_set_epoch; exact Hi).
-  destruct (run_spec _ evs H0) as [_ [H1 [H2 _]]]. split; [|exact H1].
-  eapply Forall_impl; [|exact H2]. intros a [[Ha [Hb _]] _]. split; assumption.
+  intros q replica info auto evs Hi Hlow.
+  destruct (run_spec q _ evs (init_inv q replica info auto Hi) Hlow) as [H1 [_ H3]]. split; [|exact H3].
+  eapply Forall_impl; [|exact H1]. intros [r a] [Ha [Hb _]]. split; assumption.
 Qed.
 Print Assumptions C18_inv_on_every_write.
+
+(* (1a) whatever happens to the replication factor (raised, lowered, while a migration is in flight): every value
+        passed to the register is well-formed with at most one removing entry ... *)
+Theorem C18_core_survives_factor_changes : forall replica info auto evs,
+  wf info -> len (removings info) <= 1 ->
+  Forall (fun ra => wf (a_value (snd ra)) /\ len (removings (a_value (snd ra))) <= 1)
+         (snd (run (init_state replica info auto) evs)).
+Proof.
+  intros replica info auto evs Hw Hl.
+  assert (Hi : Inv false replica info) by (split; [exact Hw|split; [exact Hl|discriminate]]).
+  destruct (C18_inv_on_every_write false replica info auto evs Hi) as [H _]; [discriminate|].
+  eapply Forall_impl; [|exact H]. intros ra [_ [Hv [Hlv _]]]. split; assumption.
+Qed.
+Print Assumptions C18_core_survives_factor_changes.
+
+(* (1b) ... and a write that makes the set of non-removing replicas smaller (marking a removal) leaves a strict
+        majority of the factor in effect at that moment; all other writes keep or enlarge that set *)
+Theorem C18_shrinking_write_keeps_majority : forall replica info auto evs,
+  wf info -> len (removings info) <= 1 ->
+  Forall (fun ra => len (isr (a_value (snd ra))) < len (isr (a_before (snd ra))) ->
+                    fst ra / 2 < len (isr (a_value (snd ra))))
+         (snd (run (init_state replica info auto) evs)).
+Proof.
+  intros replica info auto evs Hw Hl.
+  assert (Hi : Inv false replica info) by (split; [exact Hw|split; [exact Hl|discriminate]]).
+  destruct (run_spec false _ evs (init_inv false replica info auto Hi)) as [H1 _]; [discriminate|].
+  eapply Forall_impl; [|exact H1]. intros [r a] [_ [_ [_ Hs]]]. exact Hs.
+Qed.
+Print Assumptions C18_shrinking_write_keeps_majority.
+
+(* (1c) lowering the factor keeps the full invariant of the stored value *)
+Theorem C18_lowering_keeps_inv : forall r r' i, Inv true r i -> r' <= r -> Inv true r' i.
+Proof. exact (Inv_lower true). Qed.
+Print Assumptions C18_lowering_keeps_inv.
+
+(* (1d) raising it does not: the statement "every written value is a strict majority of the configured factor"
+        is FALSE across a raise. One replica, factor raised 1 -> 5 (six registered nodes), the replica's node is
+        decommissioned: processRemovingNodes adds a second replica and writes a value with 2 of 5 - not a majority
+        of 5 (it is still an improvement: (1b)). handleNamespaceMigrate refuses the same write and therefore never
+        grows such a partition (the TODO in pd_coordinator.go). Replayed on the real coordinator: corpus/C18. *)
+Definition raise_info : rinfo := mkInfo [1] [(1,1)] [] 1 [] 0.
+Definition raise_events : list event :=
+  [ ENodes [1;2;3;4;5;6] [];
+    EAnswer [(1, Some (Some [(1,1)], true)); (2, Some (Some [(1,1)], true))];
+    EReplica 5;
+    EMarkNode 1;
+    EProcess (PList [5;6;2;3;4]) ].
+Theorem C18_majority_across_raise_refuted :
+  Inv true 1 raise_info /\
+  exists ra, In ra (snd (run (init_state 1 raise_info true) raise_events)) /\
+             ~ (fst ra / 2 < len (isr (a_value (snd ra)))).
+Proof.
+  split.
+  - split; [constructor; simpl|split; [vm_compute; discriminate|intros _; vm_compute; reflexivity]].
+    + repeat constructor; simpl; intuition discriminate.
+    + repeat constructor; simpl; intuition discriminate.
+    + repeat constructor; simpl; intuition discriminate.
+    + intros n id [H|[]]; inversion H; subst; vm_compute; discriminate.
+    + constructor.
+  - eexists. split; [vm_compute; left; reflexivity|]. vm_compute. discriminate.
+Qed.
+Print Assumptions C18_majority_across_raise_refuted.
 
 (* (2) one step of the history: each attempt is made against the value stored at that moment (chain), never
        decreases MaxRaftID, keeps an id or draws a fresh one above MaxRaftID, adds at most one node, drops
        only a replica that was marked removing, and changes the replica set by at most one member
-       (small_step: unchanged / one added / one marked-removing replica dropped) *)
+       (small_step: unchanged / one added / one marked-removing replica dropped); whatever the factor does *)
 Theorem C18_history_steps : forall replica info auto evs,
-  Inv replica info ->
-  chain (set_epoch info 1) (snd (run (init_state replica info auto) evs))
+  wf info -> len (removings info) <= 1 ->
+  chain (set_epoch info 1) (map snd (snd (run (init_state replica info auto) evs)))
         (r_info (s_reg (fst (run (init_state replica info auto) evs)))) /\
-  Forall (fun a => trans (a_before a) (a_value a)) (snd (run (init_state replica info auto) evs)).
+  Forall (fun ra => trans (a_before (snd ra)) (a_value (snd ra))) (snd (run (init_state replica info auto) evs)).
 Proof.
-  intros replica info auto evs Hi.
-  assert (H0 : Inv (s_replica (init_state replica info auto)) (r_info (s_reg (init_state replica info auto))))
-    by (simpl; apply Inv_set_epoch; exact Hi).
-  destruct (run_spec _ evs H0) as [_ [_ [H2 H3]]]. split; [exact H3|].
-  eapply Forall_impl; [|exact H2]. intros a [[_ [_ Ht]] _]. exact Ht.
+  intros replica info auto evs Hw Hl.
+  assert (Hi : Inv false replica info) by (split; [exact Hw|split; [exact Hl|discriminate]]).
+  destruct (run_spec false _ evs (init_inv false replica info auto Hi)) as [H1 [H2 _]]; [discriminate|].
+  split; [exact H2|]. eapply Forall_impl; [|exact H1]. intros [r a] [_ [_ [Ht _]]]. exact Ht.
 Qed.
 Print Assumptions C18_history_steps.
 
-(* (3) raft ids are never reused: an id newly assigned by any attempt occurs neither in the start layout nor in
-       any value stored before that attempt *)
+(* (3) raft ids are never reused: an id newly assigned by any attempt (to a voter or a learner) occurs neither in
+       the start layout nor in any value stored before that attempt *)
 Theorem C18_ids_never_reused : forall replica info auto evs,
-  Inv replica info ->
-  never_reused (ids_of info) (snd (run (init_state replica info auto) evs)).
+  wf info -> len (removings info) <= 1 ->
+  never_reused (ids_of info) (map snd (snd (run (init_state replica info auto) evs))).
 Proof.
-  intros replica info auto evs Hi.
-  assert (H0 : Inv (s_replica (init_state replica info auto)) (r_info (s_reg (init_state replica info auto))))
-    by (simpl; apply Inv_set_epoch; exact Hi).
-  destruct (run_spec _ evs H0) as [_ [_ [H2 H3]]].
-  eapply chain_never_reused with (replica := replica); [exact H3| |].
-  - eapply Forall_impl; [|exact H2]. intros a [Ha _]. exact Ha.
+  intros replica info auto evs Hw Hl.
+  assert (Hi : Inv false replica info) by (split; [exact Hw|split; [exact Hl|discriminate]]).
+  destruct (run_spec false _ evs (init_inv false replica info auto Hi)) as [H1 [H2 _]]; [discriminate|].
+  eapply chain_never_reused; [exact H2| |].
+  - apply Forall_forall. intros a Ha. apply in_map_iff in Ha. destruct Ha as [[r a'] [He Ha]]. simpl in He. subst a'.
+    unfold tagged_ok in H1. rewrite Forall_forall in H1. destruct (H1 _ Ha) as [_ [[Hwv _] [Ht _]]]. split; assumption.
   - intros id Hid. unfold ids_of in Hid. apply in_map_iff in Hid. destruct Hid as [[n id'] [He Hid]]. simpl in He. subst.
-    destruct Hi as [Hw _]. simpl. apply (wf_ids_max _ Hw n id Hid).
+    simpl. apply (wf_ids_max _ Hw n id Hid).
 Qed.
 Print Assumptions C18_ids_never_reused.
 
 (* (4) in every state reachable from a valid layout, every attempt of every next event satisfies the clause of
        that event kind (step_P): for doCheckNamespaces and handleNamespaceMigrate, att_sync and att_alive;
        for rebalanceNamespace and processRemovingNodes, att_sync and att_mark_ready *)
-Theorem C18_reachable_step : forall replica info auto evs e,
-  Inv replica info ->
+Theorem C18_reachable_step : forall q replica info auto evs e,
+  Inv q replica info ->
+  (q = true -> lowering_only (init_state replica info auto) evs) ->
   let s := fst (run (init_state replica info auto) evs) in
-  Forall (fun a => att_ok replica a /\ step_P s e a) (snd (step s e)).
+  Forall (fun a => att_ok q (s_replica s) a /\ step_P s e a) (snd (step s e)).
 Proof.
-  intros replica info auto evs e Hi s.
-  assert (H0 : Inv (s_replica (init_state replica info auto)) (r_info (s_reg (init_state replica info auto))))
-    by (simpl; apply Inv_set_epoch; exact Hi).
-  destruct (run_spec _ evs H0) as [Hr [H1 _]]. fold s in Hr, H1. simpl in Hr.
-  assert (Hs := step_spec s e). rewrite Hr in Hs. specialize (Hs H1).
-  destruct (step s e) as [[s' rt] w]. destruct Hs as [_ [_ [H2 _]]]. simpl. rewrite Hr in H2. exact H2.
+  intros q replica info auto evs e Hi Hlow s.
+  destruct (run_spec q _ evs (init_inv q replica info auto Hi) Hlow) as [_ [_ H3]]. fold s in H3.
+  assert (Hs := step_spec q s e H3).
+  destruct (step s e) as [[s' rt] w]. destruct Hs as [[_ [H2 _]] _]. exact H2.
 Qed.
 Print Assumptions C18_reachable_step.
 
@@ -112,10 +181,10 @@ Proof. intros replica cur a H Hm. exact (H Hm). Qed.
 Print Assumptions C18_mark_needs_alive_majority.
 
 Theorem C18_mark_in_balance_needs_ready_majority : forall replica env a,
-  att_ok replica a -> att_mark_ready env a -> new_mark a ->
+  att_ok true replica a -> att_mark_ready env a -> new_mark a ->
   replica / 2 < len (isr (a_before a)) /\ forall n, In n (isr (a_before a)) -> synced_of env n = true.
 Proof.
-  intros replica env a [[_ [_ Hq]] _] Hr Hm. split; [exact Hq|].
+  intros replica env a [[_ [_ Hq]] _] Hr Hm. split; [apply Hq; reflexivity|].
   intros n Hin. eapply all_ready_synced; [exact (Hr Hm)|exact Hin].
 Qed.
 Print Assumptions C18_mark_in_balance_needs_ready_majority.
@@ -123,8 +192,8 @@ Print Assumptions C18_mark_in_balance_needs_ready_majority.
 (* (5) where valid layouts come from: the layout CreateNamespace writes for a partition is valid whenever the
        placement proposes distinct nodes (C17's subject) *)
 Theorem C18_created_layout_valid : forall replica l i,
-  NoDup l -> create_partition replica l = Some i -> Inv replica i.
-Proof. exact create_partition_inv. Qed.
+  NoDup l -> create_partition replica l = Some i -> Inv true replica i.
+Proof. exact (create_partition_inv true). Qed.
 Print Assumptions C18_created_layout_valid.
 
 (* ---------- non-vacuity ---------- *)
@@ -150,9 +219,9 @@ Definition ex_events : list event :=
     ENodes [1;2;4;5] [(101, true)];
     ELCheck ].
 
-Example C18_ex_valid : Inv 3 ex_info.
+Example C18_ex_valid : Inv true 3 ex_info.
 Proof.
-  split; [constructor; simpl|split; [vm_compute; discriminate|vm_compute; reflexivity]].
+  split; [constructor; simpl|split; [vm_compute; discriminate|intros _; vm_compute; reflexivity]].
   - repeat constructor; simpl; intuition discriminate.
   - repeat constructor; simpl; intuition discriminate.
   - repeat constructor; simpl; intuition discriminate.
@@ -162,7 +231,7 @@ Qed.
 
 Example C18_ex_run :
   let res := run (init_state 3 ex_info true) ex_events in
-  map (fun a => (raft_nodes (a_value a), map fst (removings (a_value a)), max_id (a_value a), a_ok a)) (snd res) =
+  map (fun ra => let a := snd ra in (raft_nodes (a_value a), map fst (removings (a_value a)), max_id (a_value a), a_ok a)) (snd res) =
     [ ([1;2;3], [3], 3, true);        (* node 3 marked removing *)
       ([1;2], [], 3, true);           (* removal finished *)
       ([1;2;4], [], 4, true);         (* replacement added with the fresh id 4 *)
